@@ -81,6 +81,21 @@ theorem q18_checkNoticeOrigin (cfg : Cfg) (a : A) (rd : Option Read) (evs : List
   unfold checkNoticeOrigin
   q18
 
+theorem q18_foldl_chk {β : Type} (l : List β) (ok : A → β → Bool) (c : β → String) (a : A) :
+    Q18 a (l.foldl (fun a x => a.chk (ok a x) "C14" (c x)) a) := by
+  induction l generalizing a with
+  | nil => exact Q18.refl a
+  | cons x xs ih => exact (q18_chk a _ "C14" _ rfl).trans (ih _)
+
+theorem q18_checkLoggerWaited (cfg : Cfg) (a : A) (rd : Read) (evs : List Ev) : Q18 a (checkLoggerWaited cfg a rd evs) := by
+  unfold checkLoggerWaited
+  split
+  · exact Q18.refl a
+  · simp only
+    split
+    · exact Q18.refl a
+    · exact q18_foldl_chk _ _ _ a
+
 /-! ## state updates of the Spec in explicit form -/
 
 def depOne (ms : List AMod) (v : Nat) : List AMod :=
@@ -455,10 +470,11 @@ theorem q18_go (cfg : Cfg) : ∀ (reads : List Read) (a b : A) (segs : List (Nat
             split
             · exact h.trans (q18_err _ _ _ rfl)
             · refine q18_go cfg rest _ _ segs' n ?_ hf'
-              have hq := q18_checkNoticeOrigin cfg b (some rd) evs
-              have hmb : (checkNoticeOrigin cfg b (some rd) evs).get rd.uid = some m := by
+              have hq := (q18_checkNoticeOrigin cfg b (some rd) evs).trans
+                (q18_checkLoggerWaited cfg (checkNoticeOrigin cfg b (some rd) evs) rd evs)
+              have hmb : (checkLoggerWaited cfg (checkNoticeOrigin cfg b (some rd) evs) rd evs).get rd.uid = some m := by
                 unfold A.get; rw [q18_mods hq]; unfold A.get at hget; rw [hget]; exact hm
-              have h1 := q18_segment cfg (checkNoticeOrigin cfg b (some rd) evs) rd evs m hmb hal
+              have h1 := q18_segment cfg (checkLoggerWaited cfg (checkNoticeOrigin cfg b (some rd) evs) rd evs) rd evs m hmb hal
               rw [segCore_eq] at h1
               exact (q18_dep (q18_segX (h.trans hq) cfg rd m (acksOf evs)) evs).trans h1
 
